@@ -32,7 +32,9 @@ def _check_structural_constraint(must_link, cannot_link):
         for node in reacheable_nodes:
             samples_to_explore.remove(node)
 
-        for i, j in itertools.combinations(reacheable_nodes, r=2):
+        # The graph nodes are positions in unique_indices: map them back to sample indices
+        component = [unique_indices[node] for node in reacheable_nodes]
+        for i, j in itertools.combinations(component, r=2):
 
             for pair in cannot_link:
                 pair_i, pair_j = pair
